@@ -134,10 +134,23 @@
    NOT PROVED: programs that BRANCH on the values read (an rtree class with a sequential evaluator with dynamic
      scoping, evalV / resolve, is not started); reads combined with synchronous calls (stree); T3 (LIFO) and the
      saved-values invariant are not restated for rtree0 (they follow the same way: layers and ci_old are untouched by
-     the erasure).  These remain covered by the correspondence harness + monitors. *)
+     the erasure).  These remain covered by the correspondence harness + monitors.
+
+   ---------------------------------------------------------------------------------------------------------
+   DAGs (end of this file; proofs/MachineC07D.v): no general theorem - shared futures stay outside the proved classes.
+   Two computed facts (vm_compute) about the minimal DAG-shaped program in which the shape matters, a SHARED pending task
+   (stored handle awaited by two overriding tasks) that holds an override across a suspension, started under one awaiter
+   and completed under the other:
+   C07_shared_task_reads (the run: every read is the innermost enclosing override of the reading task; in particular the
+     awaiter under which the shared task was completed reads its OWN override after the shared task left its block) and
+   C07_shared_task_saves_at_every_resume (the saved-value slot of the shared task's override holds the first awaiter's
+     value while it is suspended and the second awaiter's value after its last resume; variables back to the initial
+     value at the flush point and at the end).  The same program is the corpus case _SHARED_HOLDS_OVERRIDE of
+     harness/props/c07.py, executed on the implementation and compared with the model on every run; generated DAG-shaped
+     programs (machgen.Gen.diamond) are covered by correspondence + monitors only. *)
 From Asynq Require Import Machine Seq proofs.MachineC08 proofs.MachineC01 proofs.MachineC04 proofs.MachineC07.
 From Asynq Require Import proofs.MachineC07R.
-From Asynq Require Import proofs.MachineC01S proofs.MachineDFSS proofs.MachineC06S proofs.MachineC07S.
+From Asynq Require Import proofs.MachineC01S proofs.MachineDFSS proofs.MachineC06S proofs.MachineC07S proofs.MachineC07D.
 
 (* T1 *)
 Theorem C07_values_restored : forall P, pointwise P -> forall p, tree p -> wn [] p -> forall n,
@@ -526,3 +539,30 @@ Theorem C07_rtree0_hypotheses_are_met :
      EvRead [0] 0 (VInt 10); EvRead [0] 0 (VInt 0)]%Z.
 Proof. exact c07r_demo_runs. Qed.
 Print Assumptions C07_rtree0_hypotheses_are_met.
+
+
+(* ---- a shared pending task holding an override (DAG; computed facts about one program, see the header) ---- *)
+Theorem C07_shared_task_reads :
+  let r := run_case c07d_P 2000 [c07d_root; c07d_after] in
+  fst r = [Some (Ok (VInt 0)); Some (Ok (VInt 0))] /\
+  filter c07d_view (snd r) =
+    [EvStep [0] 0 (Ok VNone); EvStep [2] 0 (Ok VNone); EvStep [3] 0 (Ok VNone); EvStep [1] 0 (Ok VNone);
+     EvStep [2] 1 (Ok (VInt 2)); EvStep [1] 1 (Ok (VInt 1)); EvRead [1] 0 (VInt 140);
+     EvStep [2] 2 (Ok (VInt 0)); EvRead [2] 0 (VInt 120);
+     EvStep [3] 1 (Ok (VInt 0)); EvRead [3] 0 (VInt 130);
+     EvStep [0] 1 (Ok (VTuple [VInt 0; VInt 0])); EvRead [0] 0 (VInt 110); EvRead [0] 0 (VInt 0);
+     EvStep [6] 0 (Ok VNone); EvRead [6] 0 (VInt 0)]%Z.
+Proof. exact c07d_diamond_runs. Qed.
+Print Assumptions C07_shared_task_reads.
+
+Theorem C07_shared_task_saves_at_every_resume :
+  let h := fst (create [] (FTask c07d_root) (st0 c07d_P)) in
+  let s1 := snd (create [] (FTask c07d_root) (st0 c07d_P)) in
+  let c k := run c07d_P k (start h s1) in
+  let after_exec := filter (fun k => match c_mode (c k) with MAfterExec => true | _ => false end) (seq 0 200) in
+  map (fun k => (k, ci_old (ci_get ([1], 4%Z) (c_st (c k))), var_get 0 (c_st (c k)))) after_exec =
+    [(34%nat, VInt 130, VInt 0); (72%nat, VInt 120, VInt 0)] /\
+  c_mode (c 200%nat) = MDone (Ok (VInt 0)) /\
+  var_get 0 (c_st (c 200%nat)) = VInt 0.
+Proof. exact c07d_saved_value_follows_the_last_resume. Qed.
+Print Assumptions C07_shared_task_saves_at_every_resume.
